@@ -3,12 +3,27 @@ from pyvc.bounded import run_samplers
 
 PROPERTY = "C03"
 LEVEL = "proof"
-CONTRACT_MODULES = ["contracts.coordinates_c07", "contracts.coordinates_c13", "contracts.blocks_c08", "contracts.base_utils", "contracts.spline_c03"]
+CONTRACT_MODULES = ["contracts.coordinates_c07", "contracts.coordinates_c13", "contracts.blocks_c08", "contracts.base_utils", "contracts.spline_c03", "contracts.vector_c03", "contracts.models_c03"]
 SP = "verde.spline"
+VC = "verde.vector"
 TARGETS = [SP + ":greens_func_numpy", SP + ":predict_numpy", SP + ":jacobian_numpy", SP + ":Spline.predict", SP + ":Spline.jacobian"]
+TARGETS += ["verde.trend:polynomial_power_combinations", "verde.trend:Trend.jacobian", "verde.trend:Trend.predict", "verde.synthetic:CheckerBoard.predict", "verde.scipygridder:_BaseScipyGridder.fit", "verde.scipygridder:_BaseScipyGridder.predict"]
+TARGETS += [VC + ":greens_func_2d", VC + ":predict_2d_numpy", VC + ":jacobian_2d_numpy", VC + ":VectorSpline2D.predict", VC + ":VectorSpline2D.jacobian"]
 MIN_OBLIGATIONS = {"quick": 30, "thorough": 30}
-EXPLANATION = "work in progress"
-ASSUMPTIONS = []
+EXPLANATION = (
+    "Each analytic model is proved equal to its documented formula for ALL inputs over the reals: the biharmonic Green's function "
+    "g(r)=r^2(ln r-1) with g(0)=0 through the real masked piecewise code (log arguments proved positive, so finite at coincident "
+    "points), the prediction loops by a loop invariant over partial sums (unbounded number of forces), the Jacobians entry by entry "
+    "(functions of coordinate differences only), the Sandwell-Wessel elastic kernels and the 2x2 block layout block by block, the "
+    "Trend monomial order (degrees 0..6 enumerated) with Jacobian columns and prediction polynomial over the same sequence, the "
+    "CheckerBoard formula with half-extent default wavelengths, and the SciPy class / rescale flag / point-value pairing of the "
+    "SciPy-backed gridders. Sums are compared by the congruence rule only; log/sqrt/sin/cos are uninterpreted with the listed facts."
+)
+ASSUMPTIONS = [
+    "log(pow(x,x)) = x*log(x) for x>0, pow(0,0)=1, log(1)=0; sqrt(x)^2=x; sin/cos uninterpreted",
+    "boolean-mask get/set pairs with the same mask address the same elements (numpy semantics of a[m] = f(b[m]))",
+    "scipy.interpolate classes are opaque: only WHICH class is built from WHICH points/values/kwargs is verified",
+]
 
 
 def bounded(tier, seed):
